@@ -35,7 +35,7 @@ pub fn oracle_c13(scn: &Scenario, t: &Trace, st: &mut ExploreStats) -> Vec<Viola
                 Op::ProbeVec(ids) | Op::ProbeTuple(ids) => ids.clone(),
                 _ => continue,
             };
-            if rec.issued_step.is_none() {
+            if rec.issued_step.is_none() || rec.cancelled {
                 continue;
             }
             st.count("typed_lists_checked");
@@ -153,6 +153,23 @@ fn c13_raw(viol: &mut Violations) -> (u64, u64) {
             }
         }
     }
+    // whatever name the builder accepts, a list of N such commands is N + 2 lines
+    for name in ["stats\n", "\nstats", "stats\r\n", " stats", "stats ", "sta\nts", "stats\0", "command_list_end", "command_list_begin"] {
+        for n in [1usize, 2, 3] {
+            let Ok(c0) = Command::build(name) else { continue };
+            let mut list = CommandList::new(c0.clone());
+            for _ in 1..n {
+                list.add(c0.clone());
+            }
+            cases += 1;
+            let w = wire_of_list(list);
+            let (lines, rest) = split_lines(&w);
+            let want_lines = if n == 1 { 1 } else { n + 2 };
+            if !rest.is_empty() || lines.len() != want_lines {
+                viol.push(Violation::new("C13/raw-list-rendering", format!("a list of {n} commands named {:?} renders to {} lines: {:?}", show_bytes(name.as_bytes()), lines.len(), show_bytes(&w)), json!({"kind": "raw", "n": n, "recipe": 0})));
+            }
+        }
+    }
     (cases, lines_checked)
 }
 
@@ -165,6 +182,16 @@ pub fn run_c13(tier: Tier) -> i32 {
     }
     for n in 1..=8usize {
         plans.push(Plan { scn: c13_scenario(Op::ProbeTuple(probe_ids(n)), n == 2 || n == 8), bound: if n == 2 || n == 8 { tier.pick(2, 3) } else { tier.pick(1, 2) } });
+    }
+    // an abandoned (cancelled) typed list must not shift the pairing of the next one
+    {
+        let mut s = Scenario::new(
+            "C13-cancelled-list-then-tuple",
+            vec![CallerProg { ops: vec![Op::ProbeVec(vec![1, 2, 3]), Op::ProbeTuple(vec![21, 22])], pipeline: true }, CallerProg { ops: vec![Op::Raw("cmd B1".into())], pipeline: false }],
+        );
+        s.cancel_budget = 1;
+        s.split_budget = 1;
+        plans.push(Plan { scn: s, bound: tier.pick(3, 4) });
     }
     // the same lists over a transport that takes only a few bytes per write call
     for (n, chunk) in [(1usize, 1usize), (2, 1), (3, 7), (5, 16), (8, 40)] {
@@ -271,12 +298,17 @@ fn art_expectation(embedded: &PicSource, cover: &PicSource, limit: usize) -> (Ve
 
 pub fn oracle_c17(scn: &Scenario, t: &Trace, st: &mut ExploreStats) -> Vec<Violation> {
     let mut out = Vec::new();
-    let (want_reqs, want_res) = art_expectation(&scn.server.embedded, &scn.server.cover, scn.server.binary_limit);
     for ops in &t.ops {
         for rec in ops {
-            if !matches!(rec.op, Op::AlbumArt(_)) || rec.issued_step.is_none() {
+            let Op::AlbumArt(uri) = &rec.op else { continue };
+            if rec.issued_step.is_none() {
                 continue;
             }
+            let (emb, cov) = match scn.server.per_uri.iter().find(|(u, _, _)| u == uri) {
+                Some((_, e, c)) => (e.clone(), c.clone()),
+                None => (scn.server.embedded.clone(), scn.server.cover.clone()),
+            };
+            let (want_reqs, want_res) = art_expectation(&emb, &cov, scn.server.binary_limit);
             st.count("album_art_loads_checked");
             // requests as the server saw them
             let mut got_reqs: Vec<(String, usize)> = Vec::new();
@@ -287,7 +319,10 @@ pub fn oracle_c17(scn: &Scenario, t: &Trace, st: &mut ExploreStats) -> Vec<Viola
                 let Ok(req) = tokenize(&r.lines[0]) else { continue };
                 let name = String::from_utf8_lossy(&req.name).into_owned();
                 if name == "readpicture" || name == "albumart" {
-                    if req.args.len() != 2 || req.args[0] != ART_URI.as_bytes() {
+                    if req.args.first().map(|a| a.as_slice()) != Some(uri.as_bytes()) && scn.server.per_uri.iter().any(|(u, _, _)| req.args.first().map(|a| a.as_slice()) == Some(u.as_bytes())) {
+                        continue; // a request of another load in the same scenario
+                    }
+                    if req.args.len() != 2 || req.args[0] != uri.as_bytes() {
                         out.push(Violation::new("C17/request-shape", format!("album art request {:?} does not carry the URI and one offset", show_bytes(&r.lines[0])), Value::Null));
                         continue;
                     }
@@ -315,6 +350,9 @@ pub fn oracle_c17(scn: &Scenario, t: &Trace, st: &mut ExploreStats) -> Vec<Viola
                     let Ok(req) = tokenize(&r.lines[0]) else { continue };
                     let name = String::from_utf8_lossy(&req.name).into_owned();
                     if name != "readpicture" && name != "albumart" {
+                        continue;
+                    }
+                    if req.args.first().map(|a| a.as_slice()) != Some(uri.as_bytes()) {
                         continue;
                     }
                     if cur.as_deref() != Some(name.as_str()) {
@@ -421,6 +459,30 @@ fn c17_grid(tier: Tier) -> Vec<Scenario> {
         let mut s = c17_scenario(&format!("C17-cover-size{size}-limit{limit}-short-pieces"), PicSource::Empty, PicSource::Data(picture(size), None), limit, false);
         s.server.chunk_pattern = pat;
         v.push(s);
+    }
+    // several loads on one connection: each load is judged by the replies to ITS requests only
+    {
+        let pic_a = picture(9);
+        let pic_b: Vec<u8> = picture(7).iter().map(|b| b ^ 0x55).collect();
+        let behaviours: Vec<(&str, PicSource, PicSource)> = vec![
+            ("unknown-readpicture", PicSource::Ack(5), PicSource::Data(pic_a.clone(), None)),
+            ("embedded", PicSource::Data(pic_b.clone(), Some("image/png".into())), PicSource::Data(pic_a.clone(), None)),
+            ("empty-readpicture", PicSource::Empty, PicSource::Data(pic_a.clone(), None)),
+            ("readpicture-ack50", PicSource::Ack(50), PicSource::Data(pic_a.clone(), None)),
+            ("neither", PicSource::Empty, PicSource::Empty),
+        ];
+        for (i, (n1, e1, c1)) in behaviours.iter().enumerate() {
+            for (j, (n2, e2, c2)) in behaviours.iter().enumerate() {
+                if i == j {
+                    continue;
+                }
+                let mut s = Scenario::new(&format!("C17-two-loads-{n1}-then-{n2}"), vec![CallerProg { ops: vec![Op::AlbumArt("first song.flac".into()), Op::AlbumArt("second.flac".into())], pipeline: false }]);
+                s.server.binary_limit = 4;
+                s.server.per_uri = vec![("first song.flac".into(), e1.clone(), c1.clone()), ("second.flac".into(), e2.clone(), c2.clone())];
+                s.max_steps = 400;
+                v.push(s);
+            }
+        }
     }
     v.push(c17_scenario("C17-neither", PicSource::Empty, PicSource::Empty, 8192, false));
     v.push(c17_scenario("C17-neither-readpicture-unknown", PicSource::Ack(5), PicSource::Empty, 8192, false));
@@ -641,6 +703,15 @@ fn all_scenarios(tier: Tier) -> Vec<Scenario> {
     }
     for n in 1..=8usize {
         v.push(c13_scenario(Op::ProbeTuple(probe_ids(n)), n == 2 || n == 8));
+    }
+    {
+        let mut s = Scenario::new(
+            "C13-cancelled-list-then-tuple",
+            vec![CallerProg { ops: vec![Op::ProbeVec(vec![1, 2, 3]), Op::ProbeTuple(vec![21, 22])], pipeline: true }, CallerProg { ops: vec![Op::Raw("cmd B1".into())], pipeline: false }],
+        );
+        s.cancel_budget = 1;
+        s.split_budget = 1;
+        v.push(s);
     }
     for (n, chunk) in [(1usize, 1usize), (2, 1), (3, 7), (5, 16), (8, 40)] {
         v.push(crate::props::loopprops::with_short_writes(c13_scenario(Op::ProbeVec(probe_ids(n.min(5))), false), chunk));
